@@ -191,7 +191,14 @@ func Mutate(repo, prop string, jobs, max int, seed int) (MutationSummary, error)
 		}
 	}
 	funcs := map[string]bool{}
-	for f := range ctx.Analysed {
+	// the functions that carry at least one obligation of the rule (functions the rule
+	// merely scans, e.g. "no other writer in the package", are not mutation targets:
+	// nearly every mutant of them is irrelevant to the property)
+	for _, o := range ctx.Obls {
+		f := o.Func
+		if f == "" {
+			continue
+		}
 		// closures are mutated with their enclosing declaration
 		if i := strings.Index(f, "$"); i >= 0 {
 			f = f[:i]
